@@ -1,3 +1,3 @@
 Require Import ExtrOcamlBasic.
 From Eupsv Require Import Base.Base Model.Db Model.DbExt.
-Extraction "model.ml" keep_types empty_db view listing step_gen effects_gen astep_gen run decide compile_all apply find_tagged xstep xempty xrun xastep.
+Extraction "model.ml" keep_types empty_db view listing step_gen effects_gen astep_gen run decide compile_all apply find_tagged xstep xempty xrun xastep kstep krun.
